@@ -2,7 +2,7 @@
 From Coq Require Import List Bool Arith Ascii String NArith.
 From UV.Base Require Import Order Res.
 From UV.Py Require Import PyStr.
-From UV.Schemes Require Import Common Generic LegacyOpenssl Gentoo GentooProofs Debian DebianProofs Semver Rpm Gem GemProofs Arch.
+From UV.Schemes Require Import Common Generic LegacyOpenssl Gentoo GentooProofs Debian DebianProofs Semver Rpm Gem GemProofs Arch Openssl.
 Import ListNotations.
 
 Record vsch := {
@@ -60,12 +60,16 @@ Definition sch_arch : vsch :=
   {| vT := str; v_valid := fun n => Ok (arch_valid n); v_ctor := arch_ctor; v_str := gen_str;
      v_ops := fun a b => Ok (arch_ops a b); v_hasheq := arch_hasheq; v_cmp := arch_cmp; v_shape := fun _ => true |}.
 
+Definition sch_openssl : vsch :=
+  {| vT := osslv; v_valid := ossl_valid; v_ctor := ossl_ctor; v_str := ossl_str;
+     v_ops := fun a b => Ok (ossl_ops a b); v_hasheq := ossl_hasheq; v_cmp := ossl_cmp; v_shape := ossl_ok |}.
+
 Definition schemes : list (string * vsch) :=
   [("GenericVersion", sch_generic); ("Version", sch_generic); ("LegacyOpensslVersion", sch_legacy);
    ("SemverVersion", sch_semver); ("NginxVersion", sch_semver); ("GolangVersion", sch_golang); ("ComposerVersion", sch_golang);
    ("GentooVersion", sch_gentoo); ("DebianVersion", sch_deb); ("AlpineLinuxVersion", sch_alpine);
    ("RpmVersion", sch_rpm); ("RubygemsVersion", sch_gem);
-   ("ArchLinuxVersion", sch_arch)]%string.
+   ("ArchLinuxVersion", sch_arch); ("OpensslVersion", sch_openssl)]%string.
 
 Definition find_scheme (name : string) : option vsch :=
   match find (fun p => String.eqb (fst p) name) schemes with Some p => Some (snd p) | None => None end.
